@@ -21,7 +21,7 @@ from .values import (
     to_string,
     to_number,
 )
-from .errors import JSError, MemoryLimitError, TimeLimitError
+from .errors import JSError, JSTypeError, MemoryLimitError, TimeLimitError
 from .jsonlib import json_parse, json_stringify
 
 
@@ -175,7 +175,14 @@ class Context:
                 return "[object Function]"
             return "[object Object]"
 
+        def require_receiver(this_val, name):
+            if this_val is UNDEFINED or this_val is NULL:
+                raise JSTypeError(
+                    f"Object.prototype.{name} called on null or undefined"
+                )
+
         def proto_hasOwnProperty(this_val, *args):
+            require_receiver(this_val, "hasOwnProperty")
             prop = to_string(args[0]) if args else ""
             vm = self._current_vm
             if vm is not None and isinstance(this_val, (JSObject, JSFunction)):
@@ -191,12 +198,14 @@ class Context:
             return False
 
         def proto_valueOf(this_val, *args):
+            require_receiver(this_val, "valueOf")
             return this_val
 
         def proto_isPrototypeOf(this_val, *args):
             obj = args[0] if args else UNDEFINED
             if not isinstance(obj, JSObject):
                 return False
+            require_receiver(this_val, "isPrototypeOf")
             proto = getattr(obj, "_prototype", None)
             while proto is not None:
                 if proto is this_val:
